@@ -158,10 +158,12 @@ const (
 	unpackStaged
 	unpackStagedForce // pre-existing non-empty output directory, Force=true
 	unpackFile        // UnpackEncryptedCollectionArchiveFile
+	unpackStagedEmpty // pre-existing empty output directory (a fresh mount point), no Force
 )
 
 var kindName = map[kind]string{loadDir: "Load(dir)", loadArchive: "Load(archive)", unpackTar: "UnpackTar", unpackEncDirect: "UnpackEncryptedCollectionArchive",
-	unpackStaged: "Unpack", unpackStagedForce: "Unpack(force,existing)", unpackFile: "UnpackEncryptedCollectionArchiveFile"}
+	unpackStaged: "Unpack", unpackStagedForce: "Unpack(force,existing)", unpackFile: "UnpackEncryptedCollectionArchiveFile",
+	unpackStagedEmpty: "Unpack(existing empty directory)"}
 
 type obs struct {
 	err   error
@@ -177,6 +179,9 @@ func (e *env) exec(k kind, input []byte, identity hpke.PrivateKey, verifyMetrics
 	must(os.RemoveAll(e.out))
 	if k == unpackStagedForce {
 		existingOut.Write(e.out)
+	}
+	if k == unpackStagedEmpty {
+		must(os.MkdirAll(e.out, 0o755))
 	}
 	if identity == nil {
 		identity = e.priv
@@ -194,7 +199,7 @@ func (e *env) exec(k kind, input []byte, identity hpke.PrivateKey, verifyMetrics
 			o.err = retriever.UnpackTar(bytes.NewReader(input), e.out, false)
 		case unpackEncDirect:
 			o.err = retriever.UnpackEncryptedCollectionArchive(bytes.NewReader(input), e.out, identity)
-		case unpackStaged:
+		case unpackStaged, unpackStagedEmpty:
 			o.err = retriever.Unpack(retriever.UnpackOptions{ArchiveReader: bytes.NewReader(input), ArchiveIdentity: identity, OutputDir: e.out})
 		case unpackStagedForce:
 			o.err = retriever.Unpack(retriever.UnpackOptions{ArchiveReader: bytes.NewReader(input), ArchiveIdentity: identity, OutputDir: e.out, Force: true})
@@ -451,7 +456,7 @@ type streamCase struct {
 func (e *env) streams(p *pristine) []streamCase {
 	return []streamCase{
 		{[]kind{unpackTar}, p.tar, "tar"},
-		{[]kind{unpackStaged, unpackEncDirect, loadArchive, unpackStagedForce}, p.enc, "encrypted-archive"},
+		{[]kind{unpackStaged, unpackEncDirect, loadArchive, unpackStagedForce, unpackStagedEmpty}, p.enc, "encrypted-archive"},
 	}
 }
 
@@ -481,7 +486,7 @@ func (w *work) byteFamilies(tier core.Tier) {
 				if tier == core.Thorough && (ki > 0 || p.codec != "none") { // all 255 values: first entry point of a stream, codec none
 					vals = subsValues(core.Quick, orig)
 				}
-				if k == unpackStagedForce {
+				if k == unpackStagedForce || k == unpackStagedEmpty {
 					vals = vals[:1]
 				}
 				for _, v := range vals {
@@ -635,7 +640,7 @@ func main() {
 		os.RemoveAll(e.root)
 		run.Finish()
 	}
-	run.Set("rule", "for a 2-graph dump (3+1 nodes, 2 relationships, shard 2) in each codec {none,gzip,zstd}: every byte position of every dump file, of its TAR and of its encrypted archive x substitutions {^0x01,^0x80,0x00,0xFF} (quick) / all 255 values (thorough) for UnpackTar, Unpack and Load(dir) on the codec-none TAR, encrypted archive and dump files; every truncation length; appended garbage (1 byte, 1-2 TAR blocks, last frame again, whole stream again); structural edits of the manifest (each count/size +-1, each hash nibble, paths, codec, phase, graph names, entry order/duplication/deletion, metrics histograms with recomputed fingerprint), of fragments (swap, delete, empty), of TAR entries (swap, duplicate, delete) and encrypted frames (swap, duplicate, delete, retype); hostile TAR entries (absolute / parent / volume / backslash / blank / long / duplicate names, link / device / fifo / directory / GNU-long-name / PAX entries, oversize / undersize / negative / huge sizes) raw and re-encrypted to the recipient; wrong, edited, truncated and public-as-private keys. Entry points: Load(dir), Load(archive), UnpackTar, UnpackEncryptedCollectionArchive, Unpack, Unpack(force, existing output), UnpackEncryptedCollectionArchiveFile")
+	run.Set("rule", "for a 2-graph dump (3+1 nodes, 2 relationships, shard 2) in each codec {none,gzip,zstd}: every byte position of every dump file, of its TAR and of its encrypted archive x substitutions {^0x01,^0x80,0x00,0xFF} (quick) / all 255 values (thorough) for UnpackTar, Unpack and Load(dir) on the codec-none TAR, encrypted archive and dump files; every truncation length; appended garbage (1 byte, 1-2 TAR blocks, last frame again, whole stream again); structural edits of the manifest (each count/size +-1, each hash nibble, paths, codec, phase, graph names, entry order/duplication/deletion, metrics histograms with recomputed fingerprint), of fragments (swap, delete, empty), of TAR entries (swap, duplicate, delete) and encrypted frames (swap, duplicate, delete, retype); hostile TAR entries (absolute / parent / volume / backslash / blank / long / duplicate names, link / device / fifo / directory / GNU-long-name / PAX entries, oversize / undersize / negative / huge sizes) raw and re-encrypted to the recipient; wrong, edited, truncated and public-as-private keys. Entry points: Load(dir), Load(archive), UnpackTar, UnpackEncryptedCollectionArchive, Unpack, Unpack(force, existing output), Unpack(existing empty output directory), UnpackEncryptedCollectionArchiveFile")
 	run.Assume("a write call reaching the fake target database counts as 'written' (drivers may flush at any call)")
 	run.Assume("bytes nothing authenticates (manifest whitespace, generated_at, driver, unknown keys; TAR padding, mtime, uid) may be accepted only with a result identical to the pristine run; both counts are reported (rejected / accepted_with_identical_result)")
 	run.Assume("time-of-check/time-of-use changes of the dump directory during Load are out of scope (the property speaks of the input as given)")
